@@ -180,8 +180,12 @@ def run_sharded(fn: Callable, ctx: Ctx, nshards: int | None = None, extra: tuple
     mp = multiprocessing.get_context("fork")
     if "vf.tools" in sys.modules:  # no worker inherits a live event loop (see vf/tools.py:_run)
         sys.modules["vf.tools"].close_loop()
-    with mp.Pool(min(ctx.workers, nshards)) as pool:
-        for st in pool.imap_unordered(_run_shard, [(fn, ctx, s, nshards, extra) for s in range(nshards)]):
+    # ProcessPoolExecutor, not multiprocessing.Pool: when a worker dies (e.g. killed by the kernel for memory) Pool.map waits
+    # for ever, the executor raises BrokenProcessPool, which the runner reports as a harness error (exit 2)
+    from concurrent.futures import ProcessPoolExecutor
+
+    with ProcessPoolExecutor(max_workers=min(ctx.workers, nshards), mp_context=mp) as pool:
+        for st in pool.map(_run_shard, [(fn, ctx, s, nshards, extra) for s in range(nshards)]):
             total.merge(st)
     return total
 
